@@ -1,4 +1,27 @@
 // Package c13: homomorphic polynomial evaluation returns p(x) at the advertised depth and scale.
+//
+// Workload: generated parameter sets (BGV in both tensoring modes; CKKS in both ring types, one and two
+// primes per rescaling, rescaling primes spread around the scale) x every degree up to 9, every
+// 2^k-1 / 2^k / 2^k+1 boundary and random degrees up to the depth the chain allows x coefficient shapes
+// (dense, sparse, odd/even with and without the parity flags, zero leading / trailing coefficients,
+// leading-only, all-zero, lazy relinearisation) x single polynomials and vectors of 1..4 polynomials with
+// random disjoint slot mappings x input level from the minimum to the maximum x input / target scales
+// equal or not to the default x Evaluate / EvaluateFromPowerBasis (fresh, pre-generated, serialised and
+// restored basis). Composite circuits (sign, step, max, min, inverse, mod1) on their documented domains.
+//
+// Oracles (independent of the code under test): slot-wise Horner / Chebyshev-recurrence evaluation with
+// exact modular arithmetic (BGV: equality) or 320-bit big.Float complex arithmetic (CKKS: distance below a
+// worst-case noise bound), zero on unmapped slots, output level = input level - levels_per_rescaling *
+// ceil(log2(degree+1)) (0 in the scale-invariant mode), output scale = target scale (exact mod t / 2^-100
+// relative), an error (never a panic, never a result) when the input has fewer levels.
+//
+// Parameter rules that keep correct code silent:
+//   - BGV: prime size >= 1.5*(log2 t + log2 N) + 12 bits; the measured phase of every checked result is
+//     reported as a fraction of log2 Q (max_bgv_phase_over_logq_permille, < 1000 = no wrap-around).
+//   - CKKS: |log2(q_i/scale)| <= 2^-depth bits so that no power of X drifts by more than 2 bits;
+//     error bound = G*(W+deg+2)*(eps1+rho) + floor with rho = N(1+|s|_1)/(2*scale/2^3.5) the worst-case
+//     rounding error of one rescaling in the canonical embedding, eps1 = N(B+1)/scale the fresh noise,
+//     W = sum |c_k| k (monomial, |x|<=1) or 4 sum |c_k| k^2 (Chebyshev), G = 4 / 16.
 package c13
 
 import (
@@ -36,13 +59,38 @@ func cases(tier string, seed int64) []eng.Case {
 		out = append(out, eng.Case{ID: fmt.Sprintf("ckks/%03d/%s/logN%d/ls%d/L%d/d%d", i, cc.Ring, cc.LogN, cc.LogScale, len(cc.Q)-1, cc.Depth), Sig: "C13|ckks/polynomial.Evaluator", Desc: cc,
 			Run: func(c *eng.Ctx) { runCKKS(c, cc) }})
 	}
+	nComp := 24
+	if tier == "thorough" {
+		nComp = 120
+	}
+	for i := 0; i < nComp; i++ {
+		cc := drawComposite(r.Sub("comp", i), i, tier)
+		out = append(out, eng.Case{ID: fmt.Sprintf("comp/%03d/%s/%s/logN%d", i, cc.Kind, cc.Ring, cc.LogN), Sig: "C13|composite|" + cc.Kind, Desc: cc,
+			Run: func(c *eng.Ctx) { runComposite(c, cc) }})
+	}
+	nPlain, perPlain := 8, 60
+	if tier == "thorough" {
+		nPlain, perPlain = 32, 120
+	}
+	for i := 0; i < nPlain; i++ {
+		ii := i
+		out = append(out, eng.Case{ID: fmt.Sprintf("plain/%03d", i), Sig: "C13|bignum.Polynomial", Desc: map[string]int{"idx": i},
+			Run: func(c *eng.Ctx) { runPlain(c, ii, perPlain) }})
+	}
 	return out
 }
 
 func init() {
 	eng.Register(&eng.Monitor{
 		ID: "C13", Level: "exploration",
-		Rule:  "TODO",
+		Rule:  "cases = generated parameter sets (bgv: logN, t, prime sizes, levels; ckks: ring type, logN, scale, prime spread, secret weight, 1 or 2 primes per rescaling) + composite circuits + plaintext bignum tools; inside a polynomial case every degree 1..9, every 2^k-1/2^k/2^k+1 and random degrees up to the chain depth are evaluated with a drawn (coefficient shape, API variant, number of polynomials and slot mapping, lazy flag, input level in [min,max], input scale, target scale) and compared slot by slot with the exact reference, together with the level/scale contract; below-minimum levels must be refused. distinct key = (scheme, mode or ring+basis, degree, shape, API variant, #polynomials, lazy, level class min/mid/max, input-scale default or not, target = input or not, complex, change of basis, primes per rescaling); non-trivial = degree >= 3 (a baby-step/giant-step split or a non power-of-two power is involved) or a vector of >= 2 polynomials or a refusal / degree-0 / composite-circuit / plaintext-tool check of degree >= 3; trivial = single polynomial of degree <= 2.",
 		Cases: cases,
+		Assumptions: []string{
+			"reference arithmetic (math/big, 128-bit modular products of verif/harness/ref) is correct",
+			"decryption, decoding and secret-key encryption of the scheme packages are correct (judged by C03/C07); they are only used to observe the result",
+			"CKKS bound: first-order worst-case propagation (canonical-embedding norm N*|.|_inf, ternary secret of weight <= h, Gaussian bound B) with the stated slack factors; measured errors stay >= 9 bits below it (max_ckks_err_over_bound_permille)",
+			"composite circuits are judged on the domain and with the tolerance their doc comments state (sign/step: |x| >= 2^-29, 2^-20; max/min: 2^-19; inverse: relative 2^-20; mod1: the three in-tree parameterisations, 2^-12 against the documented scaled sine)",
+			"bignum.NewPolynomial built from float64 coefficients carries 53-bit coefficients: with two primes per rescaling the workload passes 256-bit coefficients and intervals",
+		},
 	})
 }
